@@ -712,6 +712,41 @@ def d2_apply(ctx, idx):
     d2_scale(ctx, idx, fi, R, N)
     d2_note(ctx, idx, fi, R, N)
     d2_same(ctx, idx, fi, R, N)
+    d2_okmap(ctx, idx)
+
+
+ROUNDERS = {'round', 'int', 'math.floor', 'math.ceil', 'math.trunc', 'numpy.round', 'numpy.around', 'numpy.floor', 'numpy.ceil',
+            'numpy.trunc', 'numpy.rint'}
+
+
+def d2_okmap(ctx, idx):
+    """apply_attempt_based_credit stores grade * credit and asks grade_decimal_to_ok(that value) for ok (D2.SCALE): the map must
+    decide on the value itself.  A rounded / truncated copy disagrees with the stored grade for small products (grade * credit
+    < 5e-5 rounds to 0 -> ok False with a positive grade_decimal)."""
+    r = ctx.rule('D2.OKMAP', 'grade_decimal_to_ok decides on the very value that is stored as grade_decimal (no rounding in between)', floor=1)
+    with r:
+        fi = idx.func(AG + '.grade_decimal_to_ok')
+        params = fi.params if fi.is_static else fi.params[1:]
+        if len(params) != 1:
+            raise AnalysisError('grade_decimal_to_ok should take one argument')
+        g = ('param', params[0])
+        try:
+            paths = ai.sym_exec(idx, fi)
+        except Unsupported as e:
+            raise AnalysisError('grade_decimal_to_ok: %s' % e)
+        terms = [t for p in paths for t in list(p.conds) + ([p.value] if p.value is not None else [])]
+        uses = [s_ for t in terms for s_ in ai.subterms(t) if s_ == g]
+        wrapped = [s_ for t in terms for s_ in ai.subterms(t) if s_[0] == 'call' and s_[1] in ROUNDERS and s_[2] and ai.mentions(s_[2][0], g)]
+        construct = 'AbstractGrader.grade_decimal_to_ok'
+        if wrapped:
+            r.violation(construct, 'ok is decided on `%s`, not on the grade itself: after attempt-based scaling a small product '
+                        '(grade * credit < 5e-5, e.g. grade 0.0004 at credit 0.1) rounds to 0, so ok becomes False while the stored '
+                        'grade_decimal stays positive - every grade strictly between 0 and 1 must give ok=\'partial\'' % ai.show(wrapped[0]),
+                        fi.loc, expected='{0: False, 1: True}.get(grade, \'partial\')', found=ai.show(wrapped[0]))
+        elif uses:
+            r.ok(construct, 'the argument is used unmodified', fi.loc)
+        else:
+            r.undecided(construct, 'the argument does not appear in the decision', fi.loc)
 
 
 def _layers(t):
@@ -1441,6 +1476,8 @@ MUTANTS = [
     Mutant('note-percent-scale', BASE, "Decimal(credit * 100)", "Decimal(credit * 10)", 'D2'),
     Mutant('debug-log-overwrites-note', BASE, "                if result.get('overall_message', ''):\n                    result['overall_message'] += \"\\n\\n\" + self.log_output()  # pragma: no cover\n                else:\n                    result['overall_message'] = self.log_output()\n",
            "                result['overall_message'] = self.log_output()\n", 'D3', note='the debug log replaces the attempt-credit note in overall_message'),
+    Mutant('ok-map-on-rounded-grade', BASE, "return {0: False, 1: True}.get(grade, 'partial')", "return {0: False, 1: True}.get(round(grade, 4), 'partial')", 'D2',
+           note='grade * credit < 5e-5: ok False with a positive grade_decimal'),
     Mutant('call-guard-dropped', BASE, _GUARDED_CALL, "        self.apply_attempt_based_credit(result, kwargs.get('attempt'))", 'D3'),
     Mutant('call-guard-wrong-option', BASE, _GUARDED_CALL, _GUARDED_CALL.replace("['attempt_based_credit']", "['attempt_based_credit_msg']"), 'D3'),
     Mutant('attempt-default', BASE, "kwargs.get('attempt'))", "kwargs.get('attempt', 1))", 'D3'),
@@ -1464,5 +1501,6 @@ BENIGN = [
     Benign('linear-interpolation-rearranged', CREDIT, "credit = 1 + (min_cred - 1) * steps / decrease_steps", "credit = 1 - (1 - min_cred) * (steps / decrease_steps)"),
     Benign('debug-log-append-as-conditional-expression', BASE, "                if result.get('msg', ''):\n                    result['msg'] += \"\\n\\n\" + self.log_output()\n                else:\n                    result['msg'] = self.log_output()\n",
            "                result['msg'] = (result['msg'] + \"\\n\\n\" + self.log_output()) if result.get('msg', '') else self.log_output()\n"),
+    Benign('ok-map-as-comparisons', BASE, "return {0: False, 1: True}.get(grade, 'partial')", "return False if grade == 0 else True if grade == 1 else 'partial'"),
     Benign('guard-is-not-none', BASE, "        if self.config['attempt_based_credit']:\n            self.apply", "        if self.config['attempt_based_credit'] is not None:\n            self.apply"),
 ]
